@@ -30,6 +30,7 @@ pub enum TxRef {
     Cb(u8),  // coinbase of block 1 / 2
     Tx(u8),  // k-th non-coinbase transaction of the history (chain order)
     Unknown, // txid that does not occur in the range
+    Null,    // the null outpoint 00..00:ffffffff (what a coinbase input carries) used by a non-coinbase transaction
 }
 
 #[derive(Clone, Debug, PartialEq, Eq, Hash)]
@@ -68,7 +69,7 @@ fn n_outputs(h: &History, r: TxRef) -> u8 {
     match r {
         TxRef::Genesis | TxRef::Cb(_) => 1,
         TxRef::Tx(k) => h.txs[k as usize].outs.len() as u8,
-        TxRef::Unknown => 1,
+        TxRef::Unknown | TxRef::Null => 1,
     }
 }
 
@@ -100,9 +101,10 @@ pub fn build(coin: &'static Coin, h: &History) -> Option<ChainBuilder> {
                     TxRef::Cb(_) => Some(cb2.txid()),
                     TxRef::Tx(j) => txids[*j as usize],
                     TxRef::Unknown => Some([0xee; 32]),
+                    TxRef::Null => Some([0u8; 32]),
                 };
                 match txid {
-                    Some(t) => inputs.push(TxIn::spend(t, *idx as u32)),
+                    Some(t) => inputs.push(TxIn::spend(t, if *r == TxRef::Null { 0xffff_ffff } else { *idx as u32 })),
                     None => ready = false,
                 }
             }
@@ -134,7 +136,7 @@ pub fn build(coin: &'static Coin, h: &History) -> Option<ChainBuilder> {
 
 /// Input choices for transaction k of a history with `n` non-coinbase txs whose output lists are known.
 fn input_candidates(h: &History, k: usize) -> Vec<(TxRef, u8)> {
-    let mut v = vec![(TxRef::Genesis, 0), (TxRef::Unknown, 0)];
+    let mut v = vec![(TxRef::Genesis, 0), (TxRef::Unknown, 0), (TxRef::Null, 0)];
     for c in 1..=2u8 {
         v.push((TxRef::Cb(c), 0));
     }
@@ -311,7 +313,7 @@ pub fn run(prop: &str) -> Report {
     let c08 = prop == "C08";
     let (hist, bound) = grammar_histories(thorough, c08);
     rep.bound = bound;
-    rep.rule = "every spend history of the grammar: 3 blocks (real genesis + 2), coinbases paying A/B or byte-identical duplicates, <=N non-coinbase txs placed in any block, each input chosen from {any output created earlier incl. same block, an output created later (spend-before-create), unknown txid, out-of-range index, an outpoint referenced before (double reference)}, outputs from {A, B, OP_RETURN, bare multisig, zero-value A (, P2PK of A's key)}; histories whose references form a hash cycle are unrealisable and skipped; plus output-index width sweeps, --start ranges and 3 coins; non-trivial = distinct realisable history".into();
+    rep.rule = "every spend history of the grammar: 3 blocks (real genesis + 2), coinbases paying A/B or byte-identical duplicates, <=N non-coinbase txs placed in any block, each input chosen from {any output created earlier incl. same block, an output created later (spend-before-create), unknown txid, the null outpoint, out-of-range index, an outpoint referenced before (double reference)}, outputs from {A, B, OP_RETURN, bare multisig, zero-value A (, P2PK of A's key)}; histories whose references form a hash cycle are unrealisable and skipped; plus output-index width sweeps, --start ranges and 3 coins; non-trivial = distinct realisable history".into();
     let root = refmodel::world::scratch_root();
     // work items: (history index, coin, --start) and the index-width sweeps
     #[derive(Clone)]
@@ -391,6 +393,7 @@ fn judge_history(prop: &str, c08: bool, wk: &Worker, cn: &'static Coin, h: &Hist
         for (r, _) in &t.inputs {
             match r {
                 TxRef::Unknown => acc.count("input:unknown-outpoint", 1),
+                TxRef::Null => acc.count("input:null-outpoint-in-non-coinbase-tx", 1),
                 TxRef::Tx(_) => acc.count("input:non-coinbase-output", 1),
                 _ => acc.count("input:coinbase-output", 1),
             }
